@@ -1,6 +1,6 @@
 (* C09 — the global trapezoidal rule, unmodified basis: weights . values = integral of the piecewise-linear interpolant,
    sum, first moment, non-negativity, boundary stripping, tensor product, independence of levels/history. *)
-From Coq Require Import ZArith List QArith Qcanon Bool Arith Lia Lra Lqa.
+From Coq Require Import ZArith List QArith Qcanon Bool Arith Lia Lqa.
 From SG Require Import Base.QcUtil Model.Trap Proofs.TrapBasics.
 Import ListNotations.
 Open Scope Qc_scope.
